@@ -26,7 +26,9 @@ head = """# Independent seeded changes
 
 Each directory `seeded/<property>/<variant>/` holds a change to `custom_components/pyscript` written by a fresh
 sub-agent that was given only the text of the property and a scratch worktree (nothing from `/verif`):
-`patch.diff` (relative to `/repo` HEAD at the time of the last confirmation; `patch_as_submitted.diff` where a
+`patch.diff` (relative to the `/repo` commit named in the "confirmed" column = HEAD at the time of the last
+confirmation - later `fix:` commits may touch the same lines, `git -C /repo worktree add <dir> <that commit>` gives the
+tree it applies to; `patch_as_submitted.diff` where a
 later `fix:` commit made a rebase necessary), `test_demo.py` (+ `pytest.ini` / `conftest.py`), the sub-agent's
 `meta.json` and `confirmed.json` = what `tools/seedcheck.sh <property> <variant>` observed here: the patch applies,
 the demonstration fails with and passes without the change, the pinned 88 tests pass with it, and the exit code
